@@ -278,26 +278,29 @@ class Parser:
     #   - this also ensures that an empty option [] will be "something"
     #
     def arg_buffer(self, buf, start, end='}'):
+        def txt(tok):
+            # NB: verbatim text is never markup, even if it reads '{' or '}'
+            return '' if type(tok) is defs.VerbatimToken else tok.txt
         tok = buf.skip_space()
         if not tok:
             return scanner.Buffer([defs.VoidToken(start)])
         if type(tok) is defs.ParagraphToken:
             return scanner.Buffer([defs.VoidToken(tok.pos)])
-        if end == '}' and tok.txt != '{':
+        if end == '}' and txt(tok) != '{':
             # consume single token
             buf.next()
             return scanner.Buffer([tok])
         pos = tok.pos
-        lev = 1 if tok.txt == '{' else 0
+        lev = 1 if txt(tok) == '{' else 0
         opening_tok = tok
         tok = buf.next()    # skip opening { or [
         out = []
         while tok:
-            if tok.txt == '{':
+            if txt(tok) == '{':
                 lev += 1
-            if tok.txt == '}':
+            if txt(tok) == '}':
                 lev -= 1
-            if tok.txt == end and lev == 0:
+            if txt(tok) == end and lev == 0:
                 buf.next()  # consume closing } or ]
                 if not out:
                     out = [defs.VoidToken(pos)]
